@@ -19,7 +19,12 @@ func scratch(tag string) string {
 	if _, err := os.Stat(base); err != nil {
 		base = os.TempDir()
 	}
-	d, err := os.MkdirTemp(base, "verif-"+tag+"-")
+	pat := "verif-" + tag + "-"
+	if tag == "seq" || tag == "conc" {
+		// a data directory is any path: keep pattern characters and a blank in its name
+		pat += "[v]? -"
+	}
+	d, err := os.MkdirTemp(base, pat)
 	if err != nil {
 		panic(err)
 	}
